@@ -60,6 +60,7 @@ static void fp_mul_karat_imp(dv_t c, const fp_t a, const fp_t b, size_t size,
 	dv_null(b1);
 	dv_null(a0b0);
 	dv_null(a1b1);
+	dv_null(t);
 
 	RLC_TRY {
 		/* Allocate the temp variables. */
